@@ -317,6 +317,10 @@ func (ap *AP) T(axes ...int) (retVal AP, a []int, err error) {
 		for i := 0; i < dims; i++ {
 			axes[i] = dims - 1 - i
 		}
+	} else {
+		// the returned axes are retained by the caller (Dense.T/SafeT keep them as transposeWith and
+		// later zero and recycle them): never hand the user's own slice on.
+		axes = append(make([]int, 0, len(axes)), axes...)
 	}
 	a = axes
 
